@@ -247,6 +247,10 @@ pub enum Repr {
     Appended { split: u16, pre: Vec<u8> },
     /// rest collected, first part prepended from a window
     Prepended { split: u16, pre: Vec<u8> },
+    /// junk collected, `clear()`, then the content extended (dead bits of the old content remain behind)
+    Refilled { junk: Vec<u8> },
+    /// first part + junk collected, `truncate(split)`, then the rest extended
+    TruncExtend { split: u16, junk: Vec<u8> },
     /// static literal from the compiled-in pool (codes must equal the pool entry)
     Static(u8),
     /// `Seq::from(BitVec)` (the unstable constructor) of a bit vector whose live bits start
@@ -274,6 +278,8 @@ impl Repr {
             Repr::Truncated { .. } => "truncated",
             Repr::Appended { .. } => "appended",
             Repr::Prepended { .. } => "prepended",
+            Repr::Refilled { .. } => "refilled",
+            Repr::TruncExtend { .. } => "trunc_extend",
             Repr::Static(_) => "static",
             Repr::RawBitVec { .. } => "raw_bitvec",
         }
@@ -526,6 +532,19 @@ fn build_raw<C: Cm>(sy: &Syms<C>, spec: &SeqSpec) -> R<Built<C>> {
             let mut s = sy.seq(&codes[k..]);
             let p = sy.seq(&cat(&[&pre, &codes[..k]]));
             s.prepend(&p[pre.len()..]);
+            Built::Owned(s)
+        }
+        Repr::Refilled { junk } => {
+            let mut s = sy.seq(&sane(m, junk));
+            s.clear();
+            s.extend(sy.vec(&codes));
+            Built::Owned(s)
+        }
+        Repr::TruncExtend { split, junk } => {
+            let k = (*split as usize).min(n);
+            let mut s = sy.seq(&cat(&[&codes[..k], &sane(m, junk)]));
+            s.truncate(k);
+            s.extend(sy.vec(&codes[k..]));
             Built::Owned(s)
         }
         Repr::RawBitVec { head } => {
